@@ -2032,3 +2032,55 @@ mod tests {
         }
     }
 }
+
+/// Verification hooks: run-time-parameter entry points of the parser.
+#[cfg(substrate_fixed_verif)]
+pub(crate) mod verif {
+    use super::*;
+
+    fn kind(e: ParseFixedError) -> u8 {
+        match e.kind {
+            ParseErrorKind::InvalidDigit => 0,
+            ParseErrorKind::NoDigits => 1,
+            ParseErrorKind::TooManyPoints => 2,
+            ParseErrorKind::Overflow => 3,
+        }
+    }
+
+    /// `from_str_{i,u}{8..128}(bytes, radix, int_nbits, frac_nbits)`; bits as a
+    /// `u128` two's-complement pattern, errors as the index of the error kind.
+    pub fn from_str(
+        signed: bool,
+        nbits: u32,
+        bytes: &[u8],
+        radix: u32,
+        int_nbits: u32,
+        frac_nbits: u32,
+    ) -> Result<(u128, bool), u8> {
+        macro_rules! go {
+            ($f:ident) => {
+                $f(bytes, radix, int_nbits, frac_nbits)
+                    .map(|(b, o)| (b as u128, o))
+                    .map_err(kind)
+            };
+        }
+        match (signed, nbits) {
+            (true, 8) => go!(from_str_i8),
+            (true, 16) => go!(from_str_i16),
+            (true, 32) => go!(from_str_i32),
+            (true, 64) => go!(from_str_i64),
+            (true, 128) => go!(from_str_i128),
+            (false, 8) => go!(from_str_u8),
+            (false, 16) => go!(from_str_u16),
+            (false, 32) => go!(from_str_u32),
+            (false, 64) => go!(from_str_u64),
+            (false, 128) => go!(from_str_u128),
+            _ => panic!("verif_hooks: unsupported primitive"),
+        }
+    }
+
+    /// error-kind index of a public `ParseFixedError`
+    pub fn error_kind(e: &ParseFixedError) -> u8 {
+        kind(*e)
+    }
+}
